@@ -4,7 +4,9 @@ instances" is enforced through field division; verify_public_input = ok (a,b) <-
 a, b their Pedersen chains; no panic), over the generic static-layout model instantiated by DATA translated from the Rust on
 every run (constants + the builtin table of each layout's validate_public_input).
 Tie: the six static layouts' validate_public_input / verify_public_input (real) vs model vs an independent Python transcription
-of the property; dynamic layout: real code only (its validation is check_asserts-driven; not modelled)."""
+of the property. Dynamic layout: Model/LayoutDynamic.lean (hand model of validate_public_input around the TRANSLATED check_asserts list,
+Generated/Layout/dynamic_asserts.lean) vs the real code vs a Python transcription that interprets the translated assertion list itself
+(Generated/ast/dynamic.asserts.txt) and states the usage / budget conditions over the integers."""
 import copy, glob, json, os
 import framework as fw
 from framework import P, hexf
@@ -14,14 +16,16 @@ LEVEL = 'proof'
 LEAN_TARGETS = ['Swiftness.Props.C14']
 TRANSLATOR_PARTS = ('consts', 'ast')
 STATIC = ['dex', 'recursive', 'recursive_with_poseidon', 'small', 'starknet', 'starknet_with_keccak']
-DRV_LAYOUTS = STATIC
+DRV_LAYOUTS = STATIC + ['dynamic']
 BUILDS = {'quick': [('k160', 'stone5', 'full', 'all_layouts', 'parser')], 'thorough': [('k160', 'stone5', 'full', 'all_layouts', 'parser')]}
 RULE = ('bases: the public input of each layout\'s shipped proof (with its own trace size). validate cases: base; log_n_steps / trace size '
         '+-1; segment count +-1; range-check bounds at 0, 65535, 65536, min=max, min>max; layout code +1; for EVERY builtin segment: usage = '
         'exactly capacity, capacity+1 instance, a non-multiple of the cell count, stop < begin; output usage 2^128. verify cases: base; every '
-        'program/output address +1 (sampled), all addresses +1000, page truncated at both ends, two cells swapped, output length +-1, '
-        'initial_pc/final_pc changed, a continuous page header added, segments removed. non-trivial = mutated.')
-ASSUMPTIONS = ['dynamic layout: compared on the real code against the oracle for verify_public_input only (validation not modelled)',
+        'program/output address +1 (sampled), all addresses +1000, page truncated at both ends, two cells swapped, output length +-1, empty output (cells dropped / kept), one output cell, '
+        'initial_pc/final_pc changed, a continuous page header added, segments removed. dynamic layout (validate): every dynamic parameter '
+        '(quick: every row ratio / switch / column count and a third of the 340) x {+1,-1,x2,/2,0,+2^32,2^64-1}; per builtin: usage at / over capacity, '
+        'non-multiple, switch toggled with and without the segment emptied, row ratio in {0,1,3,T,2T}. non-trivial = mutated.')
+ASSUMPTIONS = ['dynamic layout: hand-written Lean model + translated assertion list, tied by the correspondence check on mutated instances of the shipped dynamic public input',
                'Pedersen is modelled by executable Lean code compared on every case']
 TRUSTED = ['Python oracle: property sentence over integers; program/output cells by ADDRESS']
 HX = None
@@ -72,6 +76,88 @@ def validate_ok(L, pi, t):
     return True
 
 
+# ---- dynamic layout: independent transcription -------------------------------------------------------------------------------
+DYN_BUILTINS = [('uses_pedersen_builtin', 'pedersen_builtin_row_ratio', 'SEG_PEDERSEN', 3), ('uses_range_check_builtin', 'range_check_builtin_row_ratio', 'SEG_RANGE_CHECK', 1),
+                ('uses_ecdsa_builtin', 'ecdsa_builtin_row_ratio', 'SEG_ECDSA', 2), ('uses_bitwise_builtin', 'bitwise_row_ratio', 'SEG_BITWISE', 5),
+                ('uses_ec_op_builtin', 'ec_op_builtin_row_ratio', 'SEG_EC_OP', 7), ('uses_keccak_builtin', 'keccak_row_ratio', 'SEG_KECCAK', 16),
+                ('uses_poseidon_builtin', 'poseidon_row_ratio', 'SEG_POSEIDON', 6), ('uses_range_check96_builtin', 'range_check96_builtin_row_ratio', 'SEG_RANGE_CHECK96', 1),
+                ('uses_add_mod_builtin', 'add_mod_row_ratio', 'SEG_ADD_MOD', 7), ('uses_mul_mod_builtin', 'mul_mod_row_ratio', 'SEG_MUL_MOD', 7)]
+_DYN = {}
+
+
+def dyn_meta():
+    if not _DYN:
+        d = os.path.join(fw.LEAN, 'Swiftness', 'Generated', 'ast')
+        _DYN['idx'] = {n: i for i, n in enumerate(json.load(open(os.path.join(d, 'meta.json')))['dynamic_params'])}
+        lines = open(os.path.join(d, 'dynamic.asserts.txt')).read().split('\n')
+        _DYN['usize_max'] = int(lines[0].split()[1], 16)
+        _DYN['asserts'] = [l.split(' ') for l in lines[1:] if l]
+    return _DYN
+
+
+def aeval(toks, i, dp, T):
+    """prefix expression -> (value mod P | None = division by zero, next index)"""
+    t = toks[i]
+    if t == 'T': return T % P, i + 1
+    if t[0] == 'd': return dp[int(t[1:])] % P, i + 1
+    if t[0] == 'l': return int(t[1:], 16) % P, i + 1
+    a, j = aeval(toks, i + 1, dp, T); b, k = aeval(toks, j, dp, T)
+    if a is None or b is None: return None, k
+    if t == '+': return (a + b) % P, k
+    if t == '-': return (a - b) % P, k
+    if t == '*': return a * b % P, k
+    if t == '/': return (None if b == 0 else a // b), k
+    raise ValueError(t)
+
+
+def asserts_hold(dp, T):
+    """True / False / 'panic' (a floor_div by zero reached)"""
+    M = dyn_meta()
+    for a in M['asserts']:
+        if a[0] != '-' and dp[int(a[0])] == 0: continue
+        x, _ = aeval(a, 2, dp, T)
+        if x is None: return 'panic'
+        if a[1] == 'pow2' and not (x != 0 and x & (x - 1) == 0): return False
+        if a[1] == 'ltusize' and not x < M['usize_max']: return False
+        if a[1] == 'zero' and x != 0: return False
+    return True
+
+
+def dyn_validate_ok(pi, t):
+    consts, _ = ldata('dynamic'); M = dyn_meta(); ix = M['idx']
+    dp = pi['dyn']
+    if dp is None: return False
+    T = 1 << t
+    if not pi['lns'] < 80: return False
+    if (1 << pi['lns']) * consts['CPU_COMPONENT_HEIGHT'] * dp[ix['cpu_component_step']] != T: return False
+    if len(pi['segs']) != consts['SEG_N_SEGMENTS']: return False
+    if not (pi['rmin'] < pi['rmax'] <= 65535): return False
+    if pi['layout'] != consts['LAYOUT_CODE']: return False
+    out = pi['segs'][consts['SEG_OUTPUT']]
+    if (out[1] - out[0]) % P > (1 << 128) - 1: return False
+    for u, r, sg, cells in DYN_BUILTINS:      # a zero row ratio of a switched-on builtin / of a unit pool is an error before the assertions
+        if dp[ix[u]] != 0 and dp[ix[r]] == 0: return False
+    for r in ('memory_units_row_ratio', 'range_check_units_row_ratio', 'diluted_units_row_ratio'):
+        if dp[ix[r]] == 0: return False
+    ah = asserts_hold(dp, T)
+    if ah == 'panic': return None             # the oracle does not decide; model agreement does
+    if not ah: return False
+    # the assertions hold: every row ratio is a power of two dividing the trace length, all quotients are exact
+    copies = []
+    for u, r, sg, cells in DYN_BUILTINS:
+        c = 0 if dp[ix[u]] == 0 else T // dp[ix[r]]
+        if dp[ix[u]] != 0 and T % dp[ix[r]] != 0: return None
+        s = pi['segs'][consts[sg]]; used = (s[1] - s[0]) % P
+        if used % cells != 0 or used // cells > c: return False
+        copies.append(c)
+    mem = T // dp[ix['memory_units_row_ratio']]; rcu = T // dp[ix['range_check_units_row_ratio']]; dil = T // dp[ix['diluted_units_row_ratio']]
+    n = 1 << pi['lns']
+    if 4 * n + mem // consts['PUBLIC_MEMORY_FRACTION'] + sum(k * c for k, c in zip([3, 1, 2, 5, 7, 16, 6, 1, 7, 7], copies)) > mem: return False
+    if 3 * n + 8 * copies[1] + 6 * copies[7] + 66 * copies[9] > rcu: return False
+    if 68 * copies[3] + 16384 * copies[5] > dil: return False
+    return True
+
+
 def verify_expect(L, pi):
     """None = reject; else (program values, output values) chosen by ADDRESS"""
     consts, _ = ldata(L)
@@ -109,7 +195,7 @@ def cases(rng, tier, feats, drv_ok):
     out = []
     for L, (pi, t, c) in bases().items():
         consts, bt = ldata(L)
-        hxonly = L == 'dynamic'
+        hxonly = False
         def V(kind, p, tt=t):
             out.append({'line': f'validate_pi {L} {pi_tokens(p)} {tt:x} {c:x}', 'kind': 'validate:' + kind, 'L': L, 'pi': p, 't': tt, 'hxonly': hxonly, 'fn': 'validate'})
         def W(kind, p):
@@ -136,6 +222,37 @@ def cases(rng, tier, feats, drv_ok):
                                 'stop<begin': P - cells, 'zero': 0}.items():
                     if u is None: continue
                     V(f'builtin{seg}:{kind}', m(lambda p, seg=seg, u=u: p['segs'][seg].__setitem__(1, (p['segs'][seg][0] + u) % P)))
+        if L == 'dynamic':
+            M = dyn_meta(); ix = M['idx']; names = sorted(ix, key=ix.get)
+            def D(name, val):
+                def f(p): p['dyn'][ix[name]] = val
+                return m(f)
+            V('trace+1', pi, t + 1); V('trace-1', pi, t - 1)
+            V('steps+1', m(lambda p: p.__setitem__('lns', p['lns'] + 1)))
+            V('segments-1', m(lambda p: p['segs'].pop())); V('layout+1', m(lambda p: p.__setitem__('layout', p['layout'] + 1)))
+            V('rc-min=max', m(lambda p: (p.__setitem__('rmin', 5), p.__setitem__('rmax', 5))))
+            V('dynamic-params-missing', m(lambda p: p.__setitem__('dyn', None)))
+            # every dynamic parameter: +1, -1, x2, /2, 0, +2^32, 2^64-1 (quick: a seeded third of the parameters, every row ratio / switch always)
+            for name in names:
+                key = name.endswith('row_ratio') or name.startswith('uses_') or name in ('cpu_component_step', 'num_columns_first', 'num_columns_second')
+                if tier == 'quick' and not key and not rng.chance(1, 3): continue
+                cur = pi['dyn'][ix[name]]
+                for kind, val in [('+1', cur + 1), ('-1', cur - 1), ('x2', cur * 2), ('/2', cur // 2), ('=0', 0), ('+2^32', cur + (1 << 32)), ('=2^64-1', (1 << 64) - 1)]:
+                    if 0 <= val < 1 << 64 and val != cur and (key or tier == 'thorough' or rng.chance(1, 2)):
+                        V(f'dp:{name}{kind}', D(name, val))
+            # builtin usage at the capacity the declared row ratio gives; switches toggled with the segment emptied / kept
+            for u, r, sg, cells in DYN_BUILTINS:
+                seg = consts[sg]; on = pi['dyn'][ix[u]] != 0
+                cap = ((1 << t) // pi['dyn'][ix[r]]) if on and pi['dyn'][ix[r]] else 0
+                for kind, used in {'at-capacity': cap * cells, 'over-capacity': (cap + 1) * cells, 'non-multiple': cap * cells - 1 if cells > 1 and cap else None,
+                                   'stop<begin': P - cells, 'zero': 0}.items():
+                    if used is None: continue
+                    V(f'builtin:{sg}:{kind}', m(lambda p, seg=seg, used=used: p['segs'][seg].__setitem__(1, (p['segs'][seg][0] + used) % P)))
+                V(f'switch:{u}:toggled', D(u, 0 if on else 1))
+                V(f'switch:{u}:toggled,segment-emptied', m(lambda p, seg=seg, u=u, on=on: (p['dyn'].__setitem__(ix[u], 0 if on else 1), p['segs'][seg].__setitem__(1, p['segs'][seg][0]))))
+                for rr in (0, 1, 3, 1 << t, 1 << (t + 1)):
+                    V(f'ratio:{r}={rr}', D(r, rr))
+                    V(f'ratio:{r}={rr},segment-emptied', m(lambda p, seg=seg, r=r, rr=rr: (p['dyn'].__setitem__(ix[r], rr), p['segs'][seg].__setitem__(1, p['segs'][seg][0]))))
         # verify_public_input
         n = len(pi['page'])
         prog, ex, outp = pi['segs'][consts['SEG_PROGRAM']], pi['segs'][consts['SEG_EXECUTION']], pi['segs'][consts['SEG_OUTPUT']]
@@ -150,6 +267,12 @@ def cases(rng, tier, feats, drv_ok):
         W('cells-swapped', m(lambda p: p['page'].__setitem__(slice(0, 2), [p['page'][1], p['page'][0]])))
         W('output-len+1', m(lambda p: p['segs'][consts['SEG_OUTPUT']].__setitem__(1, outp[1] + 1)))
         W('output-len-1', m(lambda p: p['segs'][consts['SEG_OUTPUT']].__setitem__(1, outp[1] - 1)))
+        # boundary lengths: a program without output (empty output segment, its cells dropped), an output of one cell
+        W('output-empty', m(lambda p: (p['segs'][consts['SEG_OUTPUT']].__setitem__(1, outp[0]), p.__setitem__('page', p['page'][:n - olen]))))
+        W('output-empty,cells-kept', m(lambda p: p['segs'][consts['SEG_OUTPUT']].__setitem__(1, outp[0])))
+        if olen >= 2:
+            W('output-one-cell', m(lambda p: (p['segs'][consts['SEG_OUTPUT']].__setitem__(1, outp[0] + 1), p.__setitem__('page', p['page'][:n - olen + 1]))))
+        W('program-only-page', m(lambda p: (p['segs'][consts['SEG_OUTPUT']].__setitem__(1, outp[0]), p.__setitem__('page', p['page'][:plen]))))
         W('output-len-huge', m(lambda p: p['segs'][consts['SEG_OUTPUT']].__setitem__(1, (outp[0] + (1 << 70)) % P)))
         W('initial_pc=2', m(lambda p: p['segs'][consts['SEG_PROGRAM']].__setitem__(0, 2)))
         W('final_pc+1', m(lambda p: p['segs'][consts['SEG_PROGRAM']].__setitem__(1, prog[1] + 1)))
@@ -175,8 +298,7 @@ def oracle(c, co):
     if co[0] == 'panic':
         return {'key': f"panic:{c['fn']}_public_input:{c['L']}", 'what': f"{c['fn']}_public_input panicked ({who}): {co[1][:140]}"}
     if c['fn'] == 'validate':
-        if c['L'] == 'dynamic': return None
-        want = validate_ok(c['L'], c['pi'], c['t'])
+        want = dyn_validate_ok(c['pi'], c['t']) if c['L'] == 'dynamic' else validate_ok(c['L'], c['pi'], c['t'])
         if want is None: return None
         if want != (co[0] == 'ok'):
             return {'key': f"validate:{'rejects-valid' if want else 'accepts-invalid'}:{c['kind'].split(':')[1].split(':')[0]}",
